@@ -48,6 +48,12 @@ def build(prop: str, rng: random.Random, seed: int, root: str, force: dict | Non
               "convergence_test": "max_diff", "shuffle_states": True, "random_seed": rng.randint(0, 10**6)}
         world = {"problem": prob, "solver": {"cls": "SA", "kw": kw}, "ckpt": P.draw_ckpt(rng)}
         Tmax = 500
+    if prop == "C10" and not force and world["solver"]["cls"] != "PI" and world["ckpt"]["f"] > 0 and rng.random() < 0.3:
+        # longer runs with several retained checkpoints whose labels cross 9 -> 10
+        Tmax = rng.randint(12, 16)
+        world["ckpt"]["f"] = rng.choice([1, 1, 2, 3])
+        world["ckpt"]["m"] = rng.choice([2, 3])
+        world["solver"]["kw"]["epsilon"] = 1e-13
     ctl = Q.run_control(world, Tmax, root)
     plan = {"prop": prop, "seed": seed, "devices": P.devices_for(prop, seed), "world": world, "Tmax": Tmax}
     if not ctl.ok:
